@@ -7,6 +7,66 @@ use crate::rng::hex;
 use coap_lite::block_handler::BlockValue;
 use std::convert::TryFrom;
 
+/// one `BlockValue::new` call, rendered as a line (used by `clv cold-c13` in a fresh process)
+pub fn cold_call(num: usize, more: bool, size: usize) -> String {
+    match guard(|| BlockValue::new(num, more, size)) {
+        Err(p) => format!("CLV-COLD panic {}", p.text().replace('\n', " ")),
+        Ok(Ok(v)) => format!("CLV-COLD ok {} {} {}", v.num, v.more, v.size_exponent),
+        Ok(Err(_)) => "CLV-COLD err".to_string(),
+    }
+}
+
+/// Cold-start probes: each constructor call runs as the FIRST AND ONLY call of a fresh process,
+/// so that process-wide state (memo tables, lazily initialised statics) is in its initial
+/// condition - something no call made from inside a long-running check can observe.
+fn cold_start_probes(rep: &mut crate::report::Report, level: u32) {
+    if cfg!(miri) {
+        return; // no subprocesses under the interpreter
+    }
+    let exe = match std::env::current_exe() {
+        Ok(e) => e,
+        Err(_) => {
+            rep.count("cold_start_probes_unavailable");
+            return;
+        }
+    };
+    let mut sizes: Vec<usize> = vec![0, 1, 15, 16, 17, 31, 1023, 1024, 2047, 2048, 4095, 4096, 4097, usize::MAX, usize::MAX - 255];
+    for k in 0..usize::BITS {
+        sizes.push(1usize << k);
+    }
+    if level == 0 {
+        sizes = vec![16, 4096, 1usize << 56, 1usize << 63];
+    }
+    for (i, &size) in sizes.iter().enumerate() {
+        let (num, more) = [(0usize, false), (65535, true), (7, true), (65536, false)][i % 4];
+        rep.eval();
+        let out = std::process::Command::new(&exe).args(["cold-c13", &num.to_string(), &more.to_string(), &size.to_string()]).output();
+        let line = match out {
+            Ok(o) => String::from_utf8_lossy(&o.stdout).lines().find(|l| l.starts_with("CLV-COLD")).map(|l| l.to_string()),
+            Err(_) => None,
+        };
+        let wit = format!("first and only call of a fresh process: BlockValue::new({}, {}, {})", num, more, size);
+        let should_fail = size == 0 || size >= 4096 || num > 65535;
+        match line.as_deref() {
+            None => rep.count("cold_start_probes_unavailable"),
+            Some("CLV-COLD err") if should_fail => rep.count("cold_start_probes_ok"),
+            Some("CLV-COLD err") => rep.violation("block-new-rejects-valid:cold-start", "constructor refused a representable value".into(), wit),
+            Some(l) if l.starts_with("CLV-COLD panic") => rep.violation("block-new-panic:cold-start", l.to_string(), wit),
+            Some(l) => {
+                let want_szx = ((usize::BITS - 1 - size.max(1).leading_zeros()) as usize).max(4) - 4;
+                let want = format!("CLV-COLD ok {} {} {}", num, more, want_szx);
+                if should_fail {
+                    rep.violation("block-new-accepts-invalid:cold-start", format!("the call returned: {}", &l[9..]), wit);
+                } else if l != want {
+                    rep.violation("block-new-value:cold-start", format!("got `{}`, want `{}`", l, want), wit);
+                } else {
+                    rep.count("cold_start_probes_ok");
+                }
+            }
+        }
+    }
+}
+
 pub fn run_c13(ctx: &mut Ctx) {
     let (level, shard, nshards) = (ctx.level, ctx.shard, ctx.nshards);
     let mut r = ctx.rng(13);
@@ -190,6 +250,10 @@ pub fn run_c13(ctx: &mut Ctx) {
                 }
             }
         }
+    }
+    // ---- fresh-process probes
+    if shard == 0 {
+        cold_start_probes(rep, level);
     }
     // ---- the constructor has no memory: every ordered pair of interesting sizes, back to back
     {
